@@ -35,6 +35,7 @@ let parse_case (toks : string list) : parsed =
   expect "S";
   let strat = strategy_of_N (num ()) in
   expect "E"; let _ = next () in let _ = next () in let _ = next () in
+  (if a.(!pos) = "R" then (let _ = next () in let _ = next () in let _ = next () in ()));
   expect "O"; let offered = rep (int_of_string (next ())) utxo in
   expect "P"; let pre = rep (int_of_string (next ())) utxo in
   expect "I"; let implicit = { coin = num (); multiasset_of = None } in
@@ -76,7 +77,10 @@ let ffi_of (c : parsed) (m : utxo list) (u : utxo) : n result =
   let idl = ids_of m in
   let cand = string_of_n u.u_id in
   let key = String.concat ":" ("f" :: idl @ ["|"; cand]) in
-  (try Hashtbl.find c.oracle key with Not_found -> raise (Miss (need_line "f" idl [cand])))
+  let f = (try Hashtbl.find c.oracle key with Not_found -> raise (Miss (need_line "f" idl [cand]))) in
+  (* fee_for_input is the difference of two min_fee() (tx_builder.rs since d980bbe): the recorded answers must say so *)
+  let d = derived_ffi (mf_of c) m u in
+  if f <> d then failwith ("oracle-inconsistent:fee_for_input(" ^ String.concat "," idl ^ ";" ^ cand ^ ")") else f
 
 let show_value (v : value) : string =
   let es = value_entries v in
@@ -93,10 +97,15 @@ let observe (c : parsed) (v : variant) : string * sel_state * unit outcome =
 (* flags (evidence only, stripped before the comparison): +s / +d / +p when the code before the repair of the swap
    bookkeeping / the duplicate-output association / the pre-step fee would have behaved differently on this case *)
 let flags (c : parsed) (cur : string) : string =
-  let differs v = (try let (o, _, _) = observe c v in o <> cur with Miss _ -> true) in
-  (if differs { v_swap_fixed = false; v_assoc_once = true; v_prestep_fee = true } then "+s" else "") ^
-  (if differs { v_swap_fixed = true; v_assoc_once = false; v_prestep_fee = true } then "+d" else "") ^
-  (if differs { v_swap_fixed = true; v_assoc_once = true; v_prestep_fee = false } then "+p" else "")
+  let differs v = (try let (o, _, _) = observe c v in o <> cur with Miss _ -> true | Failure _ -> true) in
+  let t = true in
+  let mk a b c d e f = { v_swap_fixed = a; v_assoc_once = b; v_prestep_fee = c; v_exact_improve = d; v_skip_present = e; v_asset_guard = f } in
+  (if differs (mk false t t t t t) then "+s" else "") ^
+  (if differs (mk t false t t t t) then "+d" else "") ^
+  (if differs (mk t t false t t t) then "+p" else "") ^
+  (if differs (mk t t t false t t) then "+x" else "") ^
+  (if differs (mk t t t t false t) then "+o" else "") ^
+  (if differs (mk t t t t t false) then "+g" else "")
 
 let model_line ?(with_flags = false) (c : parsed) : string =
   let (o, st, r) = observe c current in
@@ -105,11 +114,19 @@ let model_line ?(with_flags = false) (c : parsed) : string =
   let f = (match r with
       | Done _ -> (match mf_of c st.st_inputs with Ok f -> string_of_n f | _ -> "err")
       | _ -> "-") in
+  let g = (match r with
+      | Done _ ->
+        (match lf_prefix_outpoint c.strat c.offered c.sc (List.map (fun u -> u.u_id) st.st_inputs) with
+         | Some xo ->
+           let rest = List.filter (fun u -> u.u_id <> xo) st.st_inputs in
+           string_of_n xo ^ " " ^ (match mf_of c rest with Ok f -> string_of_n f | _ -> "err")
+         | None -> "-")
+      | _ -> "-") in
   show_status r ^ (if with_flags then flags c o else "")
   ^ " I " ^ string_of_int (List.length idl) ^ String.concat "" (List.map (fun s -> " " ^ s) idl)
-  ^ " X " ^ x ^ " F " ^ f
+  ^ " X " ^ x ^ " F " ^ f ^ " G " ^ g
 
-(* the implementation's line: <status> I <n> ids… X <value|err> F <fee|err|-> *)
+(* the implementation's line: <status> I <n> ids… X <value|err> F <fee|err|-> G <outpoint fee | -> *)
 let verdict_of (c : parsed) (impl : string list) : string =
   match impl with
   | "ok" :: "I" :: k :: rest ->
@@ -126,11 +143,14 @@ let verdict_of (c : parsed) (impl : string list) : string =
          | _ -> [] in
        let explicit = { coin = n_of_string coin; multiasset_of = (if cnt = 0 then None else Some (ma_of_entries (ents etoks))) } in
        (match rest3 with
-        | ["F"; fee] when fee <> "err" && fee <> "-" ->
-          (match judge c.strat c.offered c.sc (List.map n_of_string idl) explicit (n_of_string fee) with
+        | "F" :: fee :: "G" :: gtoks when fee <> "err" && fee <> "-" ->
+          let prefix = (match gtoks with
+              | [xo; gf] when gf <> "err" -> Some (n_of_string xo, n_of_string gf)
+              | _ -> None) in
+          (match judge c.strat c.offered c.sc (List.map n_of_string idl) explicit (n_of_string fee) prefix with
            | Holds -> "holds"
            | NotApplicable -> "na"
-           | Fails cl -> (match int_of_n cl with 1 -> "fails:C08-burn-not-covered" | _ -> "fails:-"))
+           | Fails _ -> "fails:-")
         | _ -> "fails:-")
      | _ -> "fails:-")
   | _ -> "na"
